@@ -618,7 +618,8 @@ fn convenience_part(t: &mut Tally, long: usize) {
     let mut k = 0u64;
     for codec in oracle::frames::VCODECS {
         for (ac, rate) in [(None, 0u32), (Some(ACodec::AacLc), 44100), (Some(ACodec::Opus), 48000), (Some(ACodec::AacLc), 48000)] {
-            for (durs, n) in [(vec![33u32], 5usize), (vec![33, 34, 33], 6), (vec![1, 1000, 40], 6), (vec![40], long)] {
+            // (the last: frame durations of minutes and hours - a clock kept in less than f64 shows there)
+            for (durs, n) in [(vec![33u32], 5usize), (vec![33, 34, 33], 6), (vec![1, 1000, 40], 6), (vec![40], long), (vec![600_001, 123_457, 16_777_217, 40], 5)] {
               // audio frame lengths: constant, Opus 10/20/40/60 ms, alternating AAC frame sizes;
               // with and without rejected convenience calls (empty data) in between, which must
               // leave the automatic clocks alone (C05) so that the explicit path simply omits them
